@@ -13,6 +13,6 @@ CONSTANTS
   LagOn = FALSE
   RestMayFail = FALSE
   StoreByNumber = TRUE
-  MaxFaults = 0
+  MaxFaults = 1
 INVARIANTS TypeOK KeyShareConsistent SameSwitch MagicBlockComplete SosOfStoredVector NoCrash AllWaitedAllInstall AckMeansShare
 CHECK_DEADLOCK FALSE
